@@ -545,7 +545,7 @@ def _conf_quad(case, info):
         spec["eps"] = {"tier": case["eps"], "pat": "distinct", "lo": 1.0, "hi": 3.0}
     if case.get("mu"):
         spec["mu"] = {"tier": case["mu"], "pat": "distinct", "lo": 1.0, "hi": 2.0}
-    box = [[0, 2], [1, 3], [0, 2]]
+    box = [[1, 3], [0, 2], [0, 2]]
     ex = bool(case["exact"])
     dets = [
         dict(kind="energy", name="es", box=box, exact_interpolation=ex),
